@@ -264,6 +264,30 @@ theorem resolveLoop_prio (sha : Bytes → H) (env : Version → Attempt D) (st :
         simp [hp, swap0_head _ i m hm]
 
 
+/-! ### the empty contract -/
+
+/-- a target that serves nothing (no service left after filtering, hence no files) -/
+def emptyObs : Obs := { names := [], files := [] }
+
+theorem emptyObs_wf (nameOf : Bytes → Bytes) : ObsWF nameOf emptyObs := by
+  refine ⟨?_, ?_, ⟨?_, ?_, ?_⟩⟩ <;> simp [emptyObs]
+
+theorem empty_differs (l : Obs) (h : l.names ≠ [] ∨ l.files ≠ []) : sameContract emptyObs l = false := by
+  unfold sameContract sameSet subsetB emptyObs
+  rcases h with h | h
+  · cases hn : l.names with
+    | nil => exact absurd hn h
+    | cons a t => simp
+  · cases hf : l.files with
+    | nil => exact absurd hf h
+    | cons a t => simp
+
+/-- Model of the seeded variant C15-m8: an empty list of names makes `resolveWithMethod` return
+    `nil, nil` (the value that means "unchanged") before any fingerprint is computed, compared or saved. -/
+def resolveWithMethodShortCircuit (sha : Bytes → H) (st : RState H) : Attempt D → RState H × MethodResult D
+  | .fetched o p => if o.names.isEmpty then (st, .unchanged) else resolveWithMethod sha st (.fetched o p)
+  | a => resolveWithMethod sha st a
+
 /-! ### a concrete history (used by the non-vacuity example in Props) -/
 def exO1 : Obs := { names := [[97], [98]], files := [⟨[102], [1]⟩] }
 def exO1' : Obs := { names := [[98], [97]], files := [⟨[102], [1]⟩] }
